@@ -35,6 +35,8 @@ structure Leaves (K : Bus → Bus → Prop) : Prop where
     K b { b with conns := b.conns ++ [{ id := c, uid := uid, gids := gids, canFd := canFd }] }
   /-- a connection stops or resumes reading: which outgoing queues are full changes -/
   setFull : ∀ b l, K b { b with full := l }
+  /-- the configuration is reloaded: a new policy for the bus and for every registered connection -/
+  setPolicy : ∀ b p, K b (reloadPolicy b p)
 
 variable {K : Bus → Bus → Prop}
 
@@ -415,6 +417,7 @@ theorem lv_step (L : Leaves K) (tbl : List IfaceRow) (b : Bus) (ev : Ev) : K b (
         (fun t p => lv_sendError L t _ _ _) (b.pending.filter (due.contains ·))
         ({ bus := { b with pending := b.pending.filter fun p => !due.contains p } } : Tx))
   | stall c on => exact L.setFull b _
+  | reload p => exact L.setPolicy b p
 
 /-- a state predicate kept by every leaf is an invariant of all reachable states -/
 def keeps (P : Bus → Prop) (b b' : Bus) : Prop := P b → P b'
